@@ -798,6 +798,102 @@ theorem runTimers_reqs {T0 H T : Nat} (hT : T ≤ H) (fuel : Nat) {a : Agent} (h
     · simp only [hle, if_false]
       intro f t m h; cases h
 
+/-! ## the conditional form of `ReqsOK` (any number of catch-up ticks) -/
+
+/-- the requests among the outputs of `r`: conditional form that also holds for several ticks at different times -/
+structure ReqsOK' (a : Agent) (r : Agent × List Out) : Prop where
+  req : ∀ f t m, Out.dgram f t m ∈ r.2 → m.cls = 0 → ReqOut a f t m
+  pend : ∀ f t m, Out.dgram f t m ∈ r.2 → m.cls = 0 → ∀ pd ∈ r.1.pending, pd.tid = m.tid →
+    pd.src = f ∧ pd.dest = t ∧ pd.useCand = m.useCand
+  uc : ∀ f t m, Out.dgram f t m ∈ r.2 → m.cls = 0 → m.useCand = true →
+    ∃ p l r', p ∈ r.1.checklist ∧ p.state = .succeeded ∧ r.1.localOf p.l = some l ∧ r.1.remoteOf p.r = some r' ∧
+      l.addr = f ∧ r'.addr = t
+
+theorem pairwise_tid_eq' {l : List Pending} (hu : l.Pairwise (fun x y => x.tid ≠ y.tid)) {p q : Pending}
+    (hp : p ∈ l) (hq : q ∈ l) (h : p.tid = q.tid) : p = q := by
+  induction l with
+  | nil => cases hp
+  | cons y ys ih =>
+    rw [List.pairwise_cons] at hu
+    rcases List.mem_cons.mp hp with h1 | h1 <;> rcases List.mem_cons.mp hq with h2 | h2
+    · rw [h1, h2]
+    · subst h1; exact absurd h (hu.1 q h2)
+    · subst h2; exact absurd h.symm (hu.1 p h1)
+    · exact ih hu.2 h1 h2
+
+theorem find?_unique' {l : List Pending} (hu : l.Pairwise (fun x y => x.tid ≠ y.tid)) {t : Nat} {x pd : Pending}
+    (hx : l.find? (·.tid == t) = some x) (hpd : pd ∈ l) (ht : pd.tid = t) : pd = x := by
+  have hxm := List.mem_of_find?_eq_some hx
+  have hxt : x.tid = t := by simpa using List.find?_some hx
+  exact pairwise_tid_eq' hu hpd hxm (ht.trans hxt.symm)
+
+theorem ReqsOK.weak {a : Agent} {now : Nat} {r : Agent × List Out} (h : ReqsOK a now r)
+    (hu : r.1.pending.Pairwise (fun x y => x.tid ≠ y.tid)) : ReqsOK' a r := by
+  refine ⟨h.req, ?_, h.uc⟩
+  intro f t m hm hc pd hpd htid
+  have e := find?_unique' hu (h.pend f t m hm hc) hpd htid
+  subst e
+  exact ⟨rfl, rfl, rfl⟩
+
+/-- all due ticks up to `T` (any number of catch-up ticks at different times) -/
+theorem runTimers_reqs' {T0 H T : Nat} (hT : T ≤ H) (fuel : Nat) {a : Agent} (hg : Good T0 H a) :
+    ReqsOK' a (a.runTimers T fuel) := by
+  induction fuel generalizing a with
+  | zero =>
+    exact ⟨fun _ _ _ hm => absurd hm List.not_mem_nil, fun _ _ _ hm => absurd hm List.not_mem_nil,
+        fun _ _ _ hm => absurd hm List.not_mem_nil⟩
+  | succ n ih =>
+    obtain ⟨tk, htk, ht0⟩ := hg.tick
+    unfold Agent.runTimers
+    rw [htk]
+    simp only [hg.started, hg.open_, Bool.not_false, Bool.and_self, Bool.true_and, decide_eq_true_eq]
+    by_cases hle : tk ≤ T
+    · simp only [hle, if_true]
+      obtain ⟨g1, k1, f1, n1⟩ := contact_good0 hg.good0 ht0 (Nat.le_trans hle hT)
+      have id1 := SameId.of_core (core_contact a tk)
+      have c1 := contact_reqs ht0 (Nat.le_trans hle hT) hg.good0
+      have tid1 := (IceProofs.AgentC02.frame_contact a tk).tid
+      rcases hk : a.contact tk with ⟨a1, o1⟩
+      rw [hk] at g1 k1 f1 n1 id1 c1 tid1
+      simp only [] at g1 k1 f1 n1 id1 c1 tid1 ⊢
+      have g2 : Good T0 H { a1 with nextTick := some (tk + a1.interval) } :=
+        Good.mk0 (g1.nextTick _) (by simpa using f1.trans hg.noForce) ⟨_, rfl, by omega⟩
+      have ih2 := ih g2
+      have k2 := (runTimers_good hT n g2).2.1
+      have fr2 := IceProofs.AgentC02.frame_runTimers { a1 with nextTick := some (tk + a1.interval) } T n
+      rcases hr : Agent.runTimers { a1 with nextTick := some (tk + a1.interval) } T n with ⟨a2, o2⟩
+      rw [hr] at ih2 k2 fr2
+      simp only [] at ih2 k2 fr2 ⊢
+      refine ⟨?_, ?_, ?_⟩
+      · intro f t m hm hc
+        rcases List.mem_append.mp hm with hm | hm
+        · exact c1.1.req f t m hm hc
+        · exact (ih2.req f t m hm hc).of_earlier (b := { a1 with nextTick := some (tk + a1.interval) })
+            (id1.trans (sameId_nextTick a1 _)) k1.locals tid1
+      · intro f t m hm hc pd hpd htid
+        rcases List.mem_append.mp hm with hm | hm
+        · have hf := c1.1.pend f t m hm hc
+          have hpo := g2.linv.pendOK
+          have hxm : pendOf m.tid f t 0 m.useCand tk ∈ a1.pending := List.mem_of_find?_eq_some hf
+          rcases fr2.pend pd hpd with hold | hnew
+          · have e := find?_unique' hpo.2 hf hold htid
+            subst e
+            exact ⟨rfl, rfl, rfl⟩
+          · exfalso
+            have hlt := hpo.1 _ hxm
+            have e1 : (pendOf m.tid f t 0 m.useCand tk).tid = m.tid := rfl
+            rw [e1] at hlt
+            rw [htid] at hnew
+            exact Nat.lt_irrefl _ (Nat.lt_of_lt_of_le hlt hnew)
+        · exact ih2.pend f t m hm hc pd hpd htid
+      · intro f t m hm hc hu
+        rcases List.mem_append.mp hm with hm | hm
+        · exact UcOK.of_lk k2 (c1.1.uc f t m hm hc hu)
+        · exact ih2.uc f t m hm hc hu
+    · simp only [hle, if_false]
+      exact ⟨fun _ _ _ hm => absurd hm List.not_mem_nil, fun _ _ _ hm => absurd hm List.not_mem_nil,
+        fun _ _ _ hm => absurd hm List.not_mem_nil⟩
+
 /-! ## application data is never emitted on these paths (no hypothesis on the state) -/
 
 def NoData (o : List Out) : Prop := ∀ f t n, Out.data f t n ∉ o
